@@ -41,6 +41,10 @@ func Account(i int) string {
 }
 
 func MinerID(i int) []byte {
+	if i >= 100 {
+		// the dev genesis proposers (registered at height 0, so counted in every height's stake table)
+		return common.FromHex(Castors[(i-100)%len(Castors)])
+	}
 	s := sha256.Sum256([]byte(fmt.Sprintf("sim-miner-%d", i)))
 	return s[:]
 }
